@@ -51,6 +51,8 @@ structure DataIn where
   src : Nat
   len : Nat
   stunLike : Bool
+  /-- number of such datagrams in this op (`flood`) -/
+  count : Nat := 1
 
 structure OpCtx where
   tgt : Tgt := .nobody
@@ -109,10 +111,15 @@ def agentStep (s : MonState) (toks : List String) (isB : Bool) (x : AgInfo) (p c
      else if opIs "writepair" then (if c.bs == p.bs || c.bs == p.bs + wlen then [] else [("C07", "sent-bytes counter moved by more than the payload of WriteToPair")])
      else if c.bs != p.bs then [("C07", s!"sent-bytes counter moved from {p.bs} to {c.bs} without a Write")] else []) ++
     (if opIs "read" then [] else if c.br != p.br then [("C07", s!"received-bytes counter moved from {p.br} to {c.br} without a Read")] else [])
-  let accepted : Option Nat :=     -- payload length accepted for the reader in this op
+  let offered : Option (Nat × Nat) :=     -- (length, count) of the payloads of this op that pass the source filter
     match ctx.dataIn with
-    | some d => if d.toB == isB && !d.stunLike && dataAccepted p d.la d.src then some d.len else none
+    | some d => if d.toB == isB && !d.stunLike && dataAccepted p d.la d.src then some (d.len, d.count) else none
     | none => none
+  -- do they surely fit into the receive buffer?  (`x.rxBytes` bounds what it holds from above)
+  let fitsSure : Bool := match offered with
+    | some (n, k) => x.rxOk && n ≤ 8192 && x.rxBytes + k * (n + 2) ≤ rxLimitBytes
+    | none => true
+  let accepted : Option (Nat × Nat) := if fitsSure then offered else none
   let sentExp : Option (Option Nat) :=
     match toks with
     | ["write", _, _, sl] =>
@@ -124,11 +131,26 @@ def agentStep (s : MonState) (toks : List String) (isB : Bool) (x : AgInfo) (p c
       else if sl == "1" || !res.startsWith "ok:" || id.toNat? != p.sel then some none
       else match l.toNat? with | some 0 => none | some n => some (some n) | none => none
     | _ => some none
-  let recvExp : Option (Option Nat) :=
-    if ctx.unknownTgt then none
-    else match accepted with | some 0 => none | some n => some (some n) | none => some none
+  let recvExp : Option (Nat × Nat) :=
+    if ctx.unknownTgt || !fitsSure || !x.rxOk then none
+    else match accepted with | some (0, _) => none | some (n, k) => some (k, k * n) | none => some (0, 0)
   let expectNone (e : Option (Option Nat)) : Bool := match e with | some (some _) => false | _ => true
-  let v07c := if x.closed || (p.pRaw == c.pRaw && expectNone sentExp && expectNone recvExp) then [] else c07Counters p c sentExp recvExp
+  let expectNoneR (e : Option (Nat × Nat)) : Bool := match e with | some (0, 0) => true | none => true | _ => false
+  let v07c := if x.closed || (p.pRaw == c.pRaw && expectNone sentExp && expectNoneR recvExp) then [] else c07Counters p c sentExp recvExp
+  -- the drain epoch
+  let readRes : Option String := if opIs "read" && !x.closed then some res else none
+  let rdFull : Option (Option Nat) :=     -- some (some n): this read consumed a datagram of n bytes; some none: size unknown
+    match readRes with
+    | some r =>
+      if r.startsWith "read:" then some ((r.drop 5).toString.toNat?)
+      else if r.startsWith "short:" then some (if x.epLensBad then none else match x.epLens with | [l] => some l | _ => none)
+      else none
+    | none => none
+  let epRdPk := match rdFull with | some (some n) => x.epRdPk + (if n > 0 then 1 else 0) | _ => x.epRdPk
+  let epRdBy := match rdFull with | some (some n) => x.epRdBy + n | _ => x.epRdBy
+  let epSized := match rdFull with | some none => false | _ => true
+  let drained := readRes == some "empty"
+  let v07d := if p.pRaw == c.pRaw && !drained then [] else c07Epoch { x with epOk := x.epOk && epSized } c drained epRdPk epRdBy
   -- C01 safety
   let v01 := c01Safety s isB p c
   -- ---- update ----
@@ -155,11 +177,26 @@ def agentStep (s : MonState) (toks : List String) (isB : Bool) (x : AgInfo) (p c
          && !x.nomReq.contains (i.la, i.src)
       then { x with nomReq := (i.la, i.src) :: x.nomReq } else x
     | none => x
-  let rxq := match accepted with | some n => rxq ++ [n] | none => rxq
-  let x := match accepted with
-    | some n => { x with rxq := rxq, rxBytes := x.rxBytes + n, rxOk := x.rxOk && n ≤ 8192 && x.rxBytes + n ≤ 400000 }
-    | none => { x with rxq := rxq }
+  let rxq := match accepted with | some (n, k) => rxq ++ List.replicate k n | none => rxq
+  let x := { x with rxq := rxq, rxOk := x.rxOk && fitsSure,
+                    -- exact while the expected queue is exact, else an upper bound that only grows
+                    rxBytes := if x.rxOk && fitsSure then rxq.foldl (fun acc n => acc + n + 2) 0
+                               else match offered with | some (n, k) => x.rxBytes + k * (n + 2) | none => x.rxBytes }
   let x := if ctx.unknownTgt then { x with rxOk := false } else x
+  -- drain epoch bookkeeping
+  let x := { x with epRdPk := epRdPk, epRdBy := epRdBy, epOk := x.epOk && epSized && c.sel == some x.epSel && !x.closed,
+                    epLens := match offered with | some (n, _) => if x.epLens.contains n then x.epLens else n :: x.epLens | none => x.epLens,
+                    epLensBad := x.epLensBad || ctx.unknownTgt,
+                    qEmpty := x.qEmpty && offered.isNone && !ctx.unknownTgt }
+  -- a `read` that answers `empty`: nothing is queued — the expected queue and the byte bound start afresh
+  let x := if drained then { x with rxq := [], rxBytes := 0, rxOk := true, qEmpty := true } else x
+  -- while nothing can be queued and a pair is selected, (re)start the epoch at this line
+  let x := if x.qEmpty && !x.closed then
+      match c.sel.bind (findPairId c) with
+      | some q => { x with epOk := true, epSel := q.id, epPkt0 := q.pktRecv, epByte0 := q.bytesRecv, epRdPk := 0, epRdBy := 0,
+                           epLens := [], epLensBad := false }
+      | none => { x with epOk := false }
+    else x
   -- ops that change what the monitor knows about the agent
   let x := match toks with
     | ["start", _, ctl, ru, rp] =>
@@ -172,7 +209,7 @@ def agentStep (s : MonState) (toks : List String) (isB : Bool) (x : AgInfo) (p c
       else x
     | ["close", _] => if opIs "close" then { x with closed := true } else x
     | _ => x
-  (v06 ++ v04 ++ v04t ++ v02 ++ v03 ++ v20 ++ v07a ++ v07b ++ v07c ++ v01, x)
+  (v06 ++ v04 ++ v04t ++ v02 ++ v03 ++ v20 ++ v07a ++ v07b ++ v07c ++ v07d ++ v01, x)
 
 def netsOf (s : MonState) (p c : AgD) : MonState :=
   if p.lRaw == c.lRaw && p.rRaw == c.rRaw then s else
@@ -193,13 +230,16 @@ def stepActive (s : MonState) (toks : List String) (line : LineD) : MonState × 
     | ["deliver", _] | ["dup", _] => (match d? with | some d => s.resolveDeliver d | none => .nobody)
     | ["inject", w, la, src, spec] => s.resolveInject w la src (dgOfSpec spec)
     | ["data", w, la, src, _, _] => s.resolveInject w la src (some { kind := .data })
+    | ["flood", w, la, src, _, _] => s.resolveInject w la src (some { kind := .data })
     | _ => .nobody
   let dataIn : Option DataIn := match toks, tgt with
     | ["data", _, _, _, len, sl], .to i => some { toB := i.toB, la := i.la, src := i.src, len := (len.toNat?).getD 0, stunLike := sl == "1" }
+    | ["flood", _, _, _, len, count], .to i =>
+      some { toB := i.toB, la := i.la, src := i.src, len := (len.toNat?).getD 0, stunLike := false, count := min ((count.toNat?).getD 0) 4000 }
     | _, .to i => if i.d.kind == .data then some { toB := i.toB, la := i.la, src := i.src, len := i.d.len, stunLike := false } else none
     | _, _ => none
   -- for a `data` op the Inc carries no STUN message: hide it from the STUN clauses
-  let tgtStun : Tgt := match toks with | "data" :: _ => (match tgt with | .to _ => .nobody | t => t) | _ => tgt
+  let tgtStun : Tgt := match toks with | "data" :: _ | "flood" :: _ => (match tgt with | .to _ => .nobody | t => t) | _ => tgt
   let unknownTgt := match tgt with | .unknown => true | _ => false
   let ctx : OpCtx := { tgt := tgtStun, dataIn := dataIn, unknownTgt := unknownTgt }
   let dt : Nat := match toks with | ["adv", d] => (d.toNat?).getD 0 | _ => 0
@@ -236,7 +276,7 @@ def stepActive (s : MonState) (toks : List String) (line : LineD) : MonState × 
     | "addlocal" :: _ | "addremote" :: _ => { s1 with topoFrozen := true }
     | ["start", w, _, ru, rp] => { s1 with topoFrozen := true, badCreds := s1.badCreds || (s.hasB && (tokN ru, tokN rp) != peerCreds w) }
     | ["creds", w, ru, rp] => { s1 with anyCreds := true, badCreds := s1.badCreds || (s.hasB && (tokN ru, tokN rp) != peerCreds w) }
-    | "inject" :: _ | "data" :: _ => { s1 with forged := true }
+    | "inject" :: _ | "data" :: _ | "flood" :: _ => { s1 with forged := true }
     | "drop" :: _ => { s1 with lastDrop := some s.lines }
     | "restart" :: _ => { s1 with anyRestart := true }
     | "close" :: _ => { s1 with anyClose := true }
